@@ -2887,4 +2887,168 @@ theorem str_constant_display (T : PrecTable) (linelen maxlines : Nat) (lb : Bool
   have hs : Spells lb (strProg s) (unwrap r.items) := by simpa [compile] using hw.1
   exact str_display_roundtrip lb s _ hs
 
+/-! ## 9. the regex colourizer, element level: literals and group references read back -/
+
+/-- Python's reading of ONE literal element of a regex text, for the spellings `_colorize_re_tree`
+emits: backslash + (non-alphanumeric character | t r n f v | xHH | uHHHH), or a bare character.  In
+verbose mode a bare blank is skipped and a bare `#` starts a comment: not a literal (`none`). -/
+def unescRe (verbose : Bool) : List Char → Option Char
+  | [c] => if c = '\\' then none else if verbose && (c = ' ' || c = '#') then none else some c
+  | [b, e] =>
+    if b ≠ '\\' then none
+    else if e = 't' then some '\t' else if e = 'r' then some '\r' else if e = 'n' then some '\n'
+    else if e = 'f' then some (Char.ofNat 12) else if e = 'v' then some (Char.ofNat 11)
+    else if e.isAlphanum then none else some e
+  | [b, k, a1, a2] =>
+    if b ≠ '\\' ∨ k ≠ 'x' then none
+    else match unhex a1, unhex a2 with
+      | some x, some y => some (Char.ofNat (x * 16 + y))
+      | _, _ => none
+  | [b, k, a1, a2, a3, a4] =>
+    if b ≠ '\\' ∨ k ≠ 'u' then none
+    else match unhex a1, unhex a2, unhex a3, unhex a4 with
+      | some w, some x, some y, some z => some (Char.ofNat (w * 4096 + x * 256 + y * 16 + z))
+      | _, _, _, _ => none
+  | _ => none
+
+theorem unhex_hexDigit : ∀ k : Fin 16, unhex (hexDigit k.val) = some k.val := by decide +kernel
+
+theorem specials_not_alnum : ∀ c ∈ reSpecials, c.isAlphanum = false ∧ c ≠ 't' ∧ c ≠ 'r' ∧ c ≠ 'n' ∧ c ≠ 'f' ∧ c ≠ 'v' ∧
+    c ≠ 'x' ∧ c ≠ 'u' := by decide +kernel
+
+/-- **every literal the regex colourizer writes reads back as that character** — in a set or not, with
+or without the verbose escapes; in particular in verbose mode a blank or `#` is never written bare -/
+theorem reLiteral_roundtrip (inSet verbose : Bool) (c : Char) :
+    unescRe verbose (reLiteral inSet verbose c) = some c := by
+  unfold reLiteral
+  split
+  · next h =>
+    simp only [Bool.or_eq_true, Bool.and_eq_true, beq_iff_eq] at h
+    rcases h with h | ⟨_, h⟩
+    · have hs := specials_not_alnum c (by simpa using h)
+      simp [unescRe, hs]
+    · subst h; simp [unescRe]
+  split
+  · next h1 h =>
+    simp only [Bool.and_eq_true, Bool.or_eq_true, beq_iff_eq] at h
+    rcases h.1 with h | h <;> subst h <;> simp [unescRe]
+  split
+  · next h => subst h; simp [unescRe]
+  split
+  · next h => subst h; simp [unescRe]
+  split
+  · next h => subst h; simp [unescRe]
+  split
+  · next h => subst h; simp [unescRe]
+  split
+  · next h => subst h; simp [unescRe]
+  split
+  · next h =>
+    simp only [Bool.and_eq_true, decide_eq_true_eq] at h
+    have e : c.toNat / 4096 % 16 * 4096 + c.toNat / 256 % 16 * 256 + c.toNat / 16 % 16 * 16 + c.toNat % 16 = c.toNat := by
+      omega
+    have h1 := unhex_hexDigit ⟨c.toNat / 4096 % 16, by omega⟩
+    have h2 := unhex_hexDigit ⟨c.toNat / 256 % 16, by omega⟩
+    have h3 := unhex_hexDigit ⟨c.toNat / 16 % 16, by omega⟩
+    have h4 := unhex_hexDigit ⟨c.toNat % 16, by omega⟩
+    simp only at h1 h2 h3 h4
+    simp [hex4, unescRe, h1, h2, h3, h4, e]
+  split
+  · next h0 h =>
+    simp only [Bool.and_eq_true, Bool.or_eq_true, decide_eq_true_eq, not_and, Nat.not_le] at h h0
+    have hlt : c.toNat < 256 := by
+      by_cases hh : c.toNat > 255
+      · have := h0 hh; omega
+      · omega
+    have e : c.toNat / 16 % 16 * 16 + c.toNat % 16 = c.toNat := by omega
+    have h3 := unhex_hexDigit ⟨c.toNat / 16 % 16, by omega⟩
+    have h4 := unhex_hexDigit ⟨c.toNat % 16, by omega⟩
+    simp only at h3 h4
+    simp [unescRe, h3, h4, e]
+  · next h1 h2 h3 h4 h5 h6 h7 h8 h9 =>
+    have hb : c ≠ '\\' := by
+      intro e; subst e
+      have : '\\' ∈ reSpecials := by decide
+      simp only [Bool.or_eq_true, List.contains_iff_mem, Bool.and_eq_true, beq_iff_eq, not_or] at h1
+      exact h1.1 this
+    simp only [Bool.and_eq_true, Bool.or_eq_true, beq_iff_eq, not_and, Bool.not_eq_true] at h2
+    cases verbose with
+    | false => simp [unescRe, hb]
+    | true =>
+      have : ¬ (c = ' ' ∨ c = '#') := by
+        intro h; have := h2 h; simp at this
+      simp [unescRe, hb, this]
+
+/-- HISTORICAL (before 55809ad): in verbose mode a blank / `#` was written bare — skipped by Python, or
+the start of a comment -/
+theorem reLiteral_old_counterexample :
+    reLiteralOld false ' ' = [' '] ∧ unescRe true (reLiteralOld false ' ') = none ∧
+    reLiteralOld false '#' = ['#'] ∧ unescRe true (reLiteralOld false '#') = none ∧
+    reLiteral false true ' ' = ['\\', ' '] ∧ reLiteral false true '#' = ['\\', '#'] := by decide
+
+/-- the group number Python reads: the maximal run of digits after the first backslash -/
+def refDigits : List Char → List Char
+  | [] => []
+  | c :: rest => if c = '\\' then rest.takeWhile isDigitChar else refDigits rest
+
+theorem toDigits_digits : ∀ n : Fin 100, (Nat.toDigits 10 n.val).all isDigitChar = true := by decide +kernel
+
+theorem takeWhile_digits (ds rest : List Char) (h : ds.all isDigitChar = true)
+    (hr : ∀ x, rest.head? = some x → isDigitChar x = false) :
+    (ds ++ rest).takeWhile isDigitChar = ds := by
+  induction ds with
+  | nil =>
+    cases rest with
+    | nil => rfl
+    | cons x xs => simp [List.takeWhile, hr x rfl]
+  | cons d ds ih =>
+    simp only [List.all_cons, Bool.and_eq_true] at h
+    simp [List.takeWhile, h.1, ih h.2]
+
+theorem reLiteral_head (c : Char) (hc : isDigitChar c = false) :
+    ∀ x, (reLiteral false false c).head? = some x → isDigitChar x = false := by
+  intro x hx
+  have hb : isDigitChar '\\' = false := by decide
+  unfold reLiteral at hx
+  repeat' split at hx
+  all_goals (first
+    | (simp only [List.head?_cons, Option.some.injEq] at hx; subst hx; first | exact hb | exact hc)
+    | (simp at hx))
+
+/-- **a group reference keeps its number**: whatever literal follows (a digit included), the digits
+Python reads after the backslash are exactly those of the group number -/
+theorem groupref_reads_back (n : Nat) (hn : n < 100) (next : Option Char) :
+    refDigits (reGroupRef n next ++ (next.map (reLiteral false false)).getD []) = Nat.toDigits 10 n := by
+  have hd := toDigits_digits ⟨n, hn⟩
+  simp only at hd
+  cases next with
+  | none =>
+    simp only [reGroupRef, Option.map_none, Option.getD_none, List.append_nil, refDigits, if_true]
+    simpa using takeWhile_digits (Nat.toDigits 10 n) [] hd (by simp)
+  | some d =>
+    simp only [reGroupRef, Option.map_some, Option.getD_some]
+    by_cases hdig : isDigitChar d = true
+    · simp only [hdig, if_true]
+      have e : ("(?:".toList ++ '\\' :: Nat.toDigits 10 n ++ [')']) ++ reLiteral false false d =
+          '(' :: '?' :: ':' :: '\\' :: (Nat.toDigits 10 n ++ (')' :: reLiteral false false d)) := by simp
+      rw [e]
+      have h1 : ('(' : Char) ≠ '\\' := by decide
+      have h2 : ('?' : Char) ≠ '\\' := by decide
+      have h3 : (':' : Char) ≠ '\\' := by decide
+      simp only [refDigits, h1, h2, h3, if_false, if_true]
+      exact takeWhile_digits _ _ hd (by intro x hx; simp at hx; subst hx; decide)
+    · have hdig' : isDigitChar d = false := by simpa using hdig
+      simp only [hdig', Bool.false_eq_true, if_false]
+      have e : ('\\' :: Nat.toDigits 10 n) ++ reLiteral false false d =
+          '\\' :: (Nat.toDigits 10 n ++ reLiteral false false d) := by simp
+      rw [e]
+      simp only [refDigits, if_true]
+      exact takeWhile_digits _ _ hd (reLiteral_head d hdig')
+
+/-- HISTORICAL (before fd7f5b9): `(a)\1` followed by the literal `0` was written `\10` — group 10 -/
+theorem groupref_old_counterexample :
+    refDigits (reGroupRefOld 1 ++ reLiteral false false '0') = ['1', '0'] ∧
+    refDigits (reGroupRef 1 (some '0') ++ reLiteral false false '0') = ['1'] := by decide
+
+
 end Pyval
